@@ -42,7 +42,7 @@ def run(pid):
                      "opts": {"block_size": bs, "max_lpc": rnd.choice([-1, 4, 8, 12, 32]), "max_po": rnd.choice([0, 3, 6]),
                               "mid_side": rnd.random() < 0.7, "fast_corr": rnd.random() < 0.4, "window": rnd.choice(corpus.WINDOWS + ["tukey:0.1", "tukey:0.9", "tukey:0.25", "tukey:0.1"]),
                               "padding": rnd.choice([-1, 100]), "seektable": rnd.choice(["none", {"frames": 1}])},
-                     "pcm": {"signal": rnd.choice(["walk", "sine", "noise", "stereo", "wasted", "const", "impulse", "ramp", "constlo", "fade", "blockmix", "chanmix"]), "seed": rnd.randint(1, 10 ** 6), "frames": frames}})
+                     "pcm": {"signal": rnd.choice(["walk", "sine", "noise", "stereo", "wasted", "const", "impulse", "ramp", "constlo", "fade", "blockmix", "chanmix", "hitone"]), "seed": rnd.randint(1, 10 ** 6), "frames": frames}})
     # state that outlives one encode (per-thread caches, memoised tables) must not leak into the next: the same block size under
     # window parameters that differ only in their value, back to back in one process and one pool
     for bs in (256, 4096):
@@ -50,6 +50,12 @@ def run(pid):
             jobs.append({"job_id": len(jobs) + 1, "rate": 44100, "bps": 16, "channels": 2,
                          "opts": {"block_size": bs, "max_lpc": 8, "max_po": 5, "mid_side": True, "fast_corr": False, "window": w, "padding": -1, "seektable": "none"},
                          "pcm": {"signal": "sine", "seed": 4242, "frames": bs * 2 + bs // 3}})
+    # short blocks with the highest LPC order on material that LPC predicts far better than FIXED: the candidates' relative finishing
+    # order must not decide which one is written
+    for bs, bps, ch in ((64, 24, 1), (32, 24, 2), (64, 16, 1), (16, 24, 1), (64, 32, 1)):
+        jobs.append({"job_id": len(jobs) + 1, "rate": 44100, "bps": bps, "channels": ch,
+                     "opts": {"block_size": bs, "max_lpc": 32, "max_po": 3, "mid_side": True, "fast_corr": False, "padding": -1, "seektable": "none"},
+                     "pcm": {"signal": "hitone", "seed": 777 + bs, "frames": bs * 60 + 5}})
     sp = os.path.join(wd, "serial.ndjson")
     run_drive("serial", {"out": sp, "jobs": jobs}, wd, tag="serial")
     pools = [1, 2, 3, 4, 8, 16]
